@@ -16,8 +16,10 @@ var c12Inputs = []string{
 	"print )\nvar a = 1\nvar b = a + 2 * 3 - 4\nprint ( b\nvar c = b + a + 1 + 2 + 3\nprint c c\nvar d = 1 + 2 + 3 + 4 + 5 + 6\nprint d\n",
 	"var a = 1\nvar b = 2\nprint a + b\ndef t {\n f = a\n g = b + f\n}\nprint a * b - 1\n",
 	"print 1 +\nprint 2 +\nprint 3 +\nprint 4 +\nprint 5 + 6 + 7 + 8 + 9 + 10 + 11 + 12\nprint $\nprint 13\n",
-	strings.Repeat("eval )\n", 70) + "print 1\n", // more line feeds than the line table's initial capacity
-	"print $\nprint 1\nprint 2\nprint 3\n",       // early lexical failure, reader still running
+	strings.Repeat("eval )\n", 70) + "print 1\n",   // more line feeds than the line table's initial capacity
+	"print $\nprint 1\nprint 2\nprint 3\n",         // early lexical failure, reader still running
+	"def t {\n f = 1\n}\n$\nprint 1\n",             // a complete block, then a lexical failure within the look-ahead
+	"def t { x = 1 } $ def u { y = 2 }\nprint 3\n", // the same on one line
 }
 
 // C12_Pipeline: one ParseFile call reading 7 (or 3, or 64) bytes at a time;
